@@ -16,7 +16,15 @@ def declare(spec):
     spec.Class('Redirector', qual='circus.stream.redirector:Redirector', fields={})
     spec.ghost('K_alive', Set(INT))        # kernel: pids of live (not yet dead) children
     spec.ghost('siglog', List(SIGEV))      # every signal actually handed to the kernel
-    spec.Class('Watcher', qual='circus.watcher:Watcher', fields={
+    spec.ghost('spawnlog', List(SIGEV))    # every process creation: (pid, wid, clock, watcher id)
+    spec.ghost('spevlog', List(PUBEV))     # one entry per 'spawn' event handed to notify_event
+    spec.ghost('reaplog', List(PUBEV))     # one entry per 'reap' event handed to notify_event
+    spec.ghost('startlog', List(PUBEV))    # one entry per 'start' event handed to notify_event
+    spec.ghost('K_child', Set(INT))
+    spec.ghost('K_exit', Dict(INT, INT))
+    spec.assumptions['A-PROCCLS'] = 'Watcher._process_class is circus.process.Process (circus.green subclasses out of scope)'
+    spec.Class('Watcher', qual='circus.watcher:Watcher',
+               const_attrs={'_process_class': ('class', 'circus.process:Process')}, fields={
         'name': STR, 'numprocesses': INT, 'processes': Dict(INT, Ref('Process')),
         '_status': STR, 'singleton': BOOL, 'respawn': BOOL, 'on_demand': BOOL,
         'max_age': INT, 'max_age_variance': INT, 'warmup_delay': REAL,
@@ -24,7 +32,10 @@ def declare(spec):
         'max_retry': INT, 'res_name': STR, 'evpub_socket': Ref('PubSocket'), 'sockets': VAL,
         'arbiter': Ref('Arbiter'), 'cmd': VAL, 'args': VAL, 'priority': INT, 'autostart': BOOL,
         'stream_redirector': Ref('Redirector'), 'hooks': Dict(STR, VAL), 'ignore_hook_failure': List(STR),
-        'stdout_stream': VAL, 'stderr_stream': VAL,
+        'stdout_stream': VAL, 'stderr_stream': VAL, 'env': VAL, 'working_dir': VAL, 'shell': VAL,
+        'uid': VAL, 'gid': VAL, 'rlimits': VAL, 'executable': VAL, 'use_sockets': BOOL,
+        'close_child_stdin': VAL, 'close_child_stdout': VAL, 'close_child_stderr': VAL,
+        '_found_wids': VAL, 'send_hup': VAL, 'prereload_fn': VAL,
     })
     spec.Class('PubSocket', fields={'closed': BOOL})
     spec.Class('Arbiter', qual='circus.arbiter:Arbiter', fields={
